@@ -14,7 +14,7 @@ SOLVER_LEVEL = {"C01", "C02", "C03", "C04", "C05", "C16", "C17"}
 
 # every EST_SHARE-th run of these solver-level checks is an estimator-level history, judged by
 # the same oracles through the estimator API (n_iter_, warm_start refits, positive=True, ...)
-EST_SHARE = {"C17": 6, "C05": 6, "C04": 8, "C03": 12}
+EST_SHARE = {"C17": 6, "C05": 6, "C04": 8, "C03": 12, "C02": 6}
 
 
 def make_plan(check, seed, run, engine, tier="quick", entry=None):
@@ -81,7 +81,7 @@ ASSUMPTIONS_COMMON = [
     "the interpreted twin (NUMBA_DISABLE_JIT=1) executes the same source under Python semantics; "
     "the compiled sample is reported separately in runs_by_engine",
     "comparisons against a tolerance carry a relative slack of 1e-3 and a rounding allowance of "
-    "1e4 * eps * (magnitudes entering the recomputed gradient)",
+    "1e5 * eps * (magnitudes entering the recomputed gradient)",
 ]
 
 
